@@ -23,6 +23,7 @@ LEVEL = "exploration"
 RUNS = {"quick": 160, "thorough": 8000}
 TIME_CAP = {"quick": 400, "thorough": 1500}
 ARMS = ["raw", "s2352", "mdx", "cue_raw", "cue_2352"]
+SELFCHECK_N = 4
 CHUNK = 1          # runs per worker task (cost-aware: keeps the time cap responsive)
 RULE = ("every seeded AKAI / Roland image (as in C01/C02, smaller) x {raw, 2352-byte raw sectors, MDX wrapper, cue->raw, cue->2352}; "
         "ls at the root and at every directory / sampled leaf path plus export in each arm, compared with the raw arm; plus an all-audio "
